@@ -51,5 +51,9 @@ theorem ip6_no_star (h : Bytes) (info : IP6Info) (hi : ip6 h = some info) : h.he
       rw [fields_star] at hi
       split at hi <;> simp at hi
 
+theorem hext_std (idna etld : Bytes → Bool) :
+    ∀ h info, (std idna etld).ip6 h = some info → h.head? ≠ some 42 :=
+  fun h info hi => ip6_no_star h info hi
+
 end Net
 end Cors
